@@ -44,7 +44,7 @@ import (
 	"github.com/aldas/go-modbus-client/server"
 )
 
-const srvWait = 8 * time.Second
+const srvWait = 15 * time.Second
 
 type srvEnv struct {
 	mu           sync.Mutex
@@ -794,6 +794,19 @@ func execSrv(ts []string) string {
 	if os.Getenv("VERIF_SRV_CHILD") == "1" {
 		return runSrv(ts)
 	}
+	out := ""
+	for attempt := 0; attempt < 3; attempt++ {
+		out = execSrvChild(ts)
+		// a child that died without a Go panic (killed, out of memory, could not start) says nothing about the server
+		if out != "e-spawn" && out != "CRASH " && out != "HANG" {
+			break
+		}
+		time.Sleep(300 * time.Millisecond)
+	}
+	return out
+}
+
+func execSrvChild(ts []string) string {
 	cmd := exec.Command(os.Args[0], "exec")
 	cmd.Env = append(os.Environ(), "VERIF_SRV_CHILD=1")
 	cmd.Stdin = strings.NewReader(strings.Join(ts, " ") + "\n")
@@ -817,7 +830,7 @@ func execSrv(ts []string) string {
 			}
 			return "CRASH " + first
 		}
-	case <-time.After(90 * time.Second):
+	case <-time.After(240 * time.Second):
 		_ = cmd.Process.Kill()
 		return "HANG"
 	}
